@@ -334,6 +334,7 @@ func (c *vfC01Conf) world() (wc *vfWorldConf) {
 			p.ClientIDs = []string{cl.ClientID}
 		}
 		wc.Clients = []*client.Persistent{p}
+		wc.ServerName = "dns.vf.test"
 	}
 
 	return wc
